@@ -54,3 +54,32 @@ Example C02_nonvacuous :
   fst (walk None [] [p; q; r] (push_memo [] [])) = Acc /\ fst (walk None [] [r; q; p] (push_memo [] [])) = Acc /\
   fst (walk None [] [r; p; (A "*v", V [2; 4]%Z)] (push_memo [] [])) = Rej.
 Proof. vm_compute. repeat split. Qed.
+
+(* ---------- the decorated call: two passes ---------- *)
+From JT Require Import model.Wrapper proofs.TwoPassFacts.
+
+(* uses that were accepted are accepted again, unchanged, from every later state of the same context: the wrapper's
+   second pass over the parameters (before the return value) changes nothing *)
+Theorem C02_rewalk_changes_nothing : forall lbl st us m s s',
+  Forall (fun u => wf_annot (fst u)) us ->
+  walk lbl st us (m :: s) = (Acc, s') ->
+  exists m', s' = m' :: s /\ mle m m' /\ forall mx, mle m' mx -> walk lbl st us (mx :: s) = (Acc, mx :: s).
+Proof. exact walk_again. Qed.
+Print Assumptions C02_rewalk_changes_nothing.
+
+Theorem C02_two_pass : forall lbl st params r s0 s1,
+  Forall (fun u => wf_annot (fst u)) params ->
+  walk lbl st params s0 = (Acc, s1) -> s0 <> [] ->
+  walk lbl st (params ++ [r]) s1 = walk lbl st [r] s1 /\ walk lbl st (params ++ [r]) s0 = walk lbl st [r] s1.
+Proof. exact second_pass_is_return_check. Qed.
+Print Assumptions C02_two_pass.
+
+(* the statement of the property for the wrapper as a whole (wrapped_fn_impl: parameters, body, parameters + return value):
+   the call succeeds iff ONE assignment satisfies every parameter and the return value *)
+Theorem C02_call_succeeds_iff_consistent_assignment : forall lbl st params r args vd s',
+  Forall (fun u => wf_annot (fst u)) (params ++ [r]) ->
+  walk lbl st (params ++ [r]) (push_memo [] args) = (vd, s') -> (forall x, vd <> Raise x) ->
+  (fst (call_new lbl st params (Some r) (push_memo [] args)) = CROk <->
+   exists e, Forall (full_sat lbl st args e) (params ++ [r])).
+Proof. exact call_succeeds_iff_consistent_assignment. Qed.
+Print Assumptions C02_call_succeeds_iff_consistent_assignment.
